@@ -109,6 +109,62 @@ CHECKS = {
         note='Failures are keyed by the innermost cryptoparser/cryptodatahub frame; mutated X.509 certificates are '
              'outside the generated domain (lazy third-party parsing).',
         design='3 (C14)'),
+    'C04': dict(
+        technique='model-based testing of two reader models (exact reader, eager reader with generated delivery '
+                  'schedules as data) driven against the real parsers, plus exhaustive enumeration of every proper '
+                  'prefix of every generated record <= 4 KiB; oracle = bounds on bytes_needed and equality of the '
+                  'reassembled record sequence',
+        text='~2800 (thorough ~56k) generated records of every record layer (TLS, SSL 2.0 incl. 3-byte headers, SSH, '
+             'MySQL, TPKT, OpenVPN-TCP, LDAP, PostgreSQL) with all their prefixes (~416k / 9.2M) and ~3000 (61k) '
+             'delivery schedules with cuts forced inside headers and length fields, including handshake messages '
+             'fragmented over TLS records. Exact for the enumerated prefixes, sampling for schedules.',
+        note='The SSH identification string is line-delimited: only "a proper prefix is never accepted" is asserted for it.',
+        design='3 (C04)'),
+    'C06': dict(
+        technique='differential testing against an independent reference encoder and strict decoder written from the '
+                  'RFC presentation language (vf/ref/tls.py): Hypothesis-generated plain-data models + deterministic '
+                  'enumeration of every table member in every container + boundary cases at vector floors/ceilings',
+        text='~40k (thorough ~740k) models of records, alerts, CCS, hellos, certificate messages, certificate requests, '
+             'SSL 2.0 messages and every client/server extension layout; compose == reference bytes and '
+             'parse(reference bytes) recovers the model through the class, the variant parsers, the extension vectors '
+             'and TlsRecord + subprotocol parser; SCSV markers at arbitrary wire positions.',
+        note='The reference owns its own vector floor/ceiling table and derives prefix widths from it; '
+             'HelloRetryRequest is not judged (no published layout matches).',
+        design='3 (C06)'),
+    'C07': dict(
+        technique='differential testing against an independent RFC 4251/4253/4419/5656/8709 + PROTOCOL.certkeys '
+                  'reference codec (vf/ref/ssh.py) with Hypothesis models; binary packets are judged by a validity '
+                  'predicate (multiple of 8, padding 4..255, packet_length) and parsed with every conformant padding',
+        text='~30k (thorough ~500k) models of banners, KEXINIT, DH/GEX messages, disconnect, host keys of all four '
+             'types at boundary bit lengths and v00/v01 certificates, plus 4000 (all 35001) payload lengths for the '
+             'padding rule; compose == reference, parse(reference) recovers the model.',
+        note='The reference reproduces the RFC 4251 examples and a real OpenSSH certificate; v00 layout from OpenSSH 5.4-6.x.',
+        design='3 (C07)'),
+    'C10': dict(
+        technique='exhaustive enumeration of every 1- and 2-byte code space (factories, IntEnum carriers, fallback '
+                  'classes) and seeded sampling of 3-/4-byte spaces and of codes inside list containers; oracle: member '
+                  '-> exactly that member and the same bytes back, otherwise preserved verbatim or InvalidValue; alias '
+                  'scan over every enum table',
+        text='16 factories, 57 carriers, 14 list containers, 12 name lists, 26 string enums: quick enumerates all '
+             '1-/2-byte standalone spaces completely (~950k evaluations), thorough every 2^16 space inside every '
+             'carrier and container and all 2^24 SSL 2.0 cipher kinds (~21M). Exact on the enumerated spaces.',
+        note='SSH message numbers 30..49 may be shared by rule (RFC 4250 4.1.2); cryptodatahub tables are checked as installed.',
+        design='3 (C10)'),
+    'C15': dict(
+        technique='differential testing: client hellos encoded by the independent reference, parsed by the library, '
+                  'ja3() compared with an independent 100-line JA3 reader over the wire bytes; strata by construction '
+                  '(no GREASE/SCSV suites vs. with) and classification of a mismatch by exactly one documented deviation',
+        text='~28k (thorough ~600k) hellos over any version, ordered known/unknown/GREASE/SCSV suites, parsed, unparsed '
+             'and GREASE extensions, group and point-format lists; also ja3 stability under compose+parse.',
+        note='One-byte GREASE-like point-format values are not judged (the published definition has no 1-byte table).',
+        design='3 (C15)'),
+    'C16': dict(
+        technique='differential testing against definitions computed with hashlib/base64 over reference-encoded wire '
+                  'bytes (independent name-list reader for HASSH; RFC 4253 blob for fingerprints and known_hosts)',
+        text='~20k (thorough ~400k) KEXINIT and host key / certificate models: hassh, hassh_server, SHA-256/SHA-1/MD5 '
+             'fingerprints and known_hosts for parsed and constructed objects.',
+        note='B is the whole certificate blob for certificates, as the property states.',
+        design='3 (C16)'),
     'C08': dict(
         technique='differential testing against an independent RFC reference codec (vf/ref/dns.py): Hypothesis-generated '
                   'plain-data models + a seeded boundary grid; compose == reference RDATA, parse(reference) recovers '
